@@ -21,6 +21,10 @@ import (
 var symsA = []string{"{", "}", "[", "]", ":", ",", `"`, `\`, "u", "0", "1", "9", "-", "+", ".", "e", "E", " ", "a",
 	"\u00e9", "\x01", "\xff", "true", "false", "null", "\U0001F600"}
 
+// sub-alphabet of part A+ (strings of exactly L+1 symbols): enough to spell
+// objects with a key and a value, three-element arrays, escapes, fractions, exponents
+var subSyms = []string{"{", "}", "[", "]", ":", ",", `"`, `\`, "1", "-", ".", "e", " ", "a", "null"}
+
 // string atoms of part A2 (prefix-free as a set); inputs are `"` atoms* `"`
 var bu = "\\" + "u" // backslash-u, spelled so that no tool rewrites the escapes below
 
